@@ -1,6 +1,4 @@
 NOT_APPLICABLE = {
-    "C08": "no check decides byte-for-byte determinism: a per-call contract can only say that individual functions consume sets through sorted()/order-free results (those clauses are exercised inside C04/C10/C15/C20 contracts); argv order, hash seed, ninja scheduling, build-directory location and SOURCE_DATE_EPOCH handling are process-level and outside a contract's reach (DESIGN.md B.1)",
-    "C12": "maximum_color runs a second ninja pipeline over extracted per-glyph SVGs; its bookkeeping functions (glue_together._copy_svg/_copy_cbdt/_copy_colr) were not brought under contract in the time available and 'all colour tables paint the same picture' needs the whole pipeline; not claimed rather than claimed thinly (DESIGN.md B.1)",
     "C09": "whole-history / crash-point behaviour of ninja and the file system: no nanoemoji function has a postcondition that could state it (DESIGN.md section 6)",
     "C18": "interpolation and variable COLR are implemented in ufo2ft/fontTools.varLib; nanoemoji only passes records through, a contract would restate assignments and decide nothing (DESIGN.md section 6)",
 }
@@ -54,6 +52,20 @@ CLAIMS = {
         "text": "Partial. Discharged: try_reuse never declines a match picosvg reports (result is None iff reuse disabled, no donor with the same normal form, no affine, or affine outside Fixed); _update_paint_glyph takes a non-None reuse result unless the gradient counter-transform overflows. That picosvg's normal form is invariant under translation/rotation/reflection is an assumption about the dependency, checked in the bounded tier.",
         "note": "picosvg normalize/affine_between assumed (uninterpreted); OT-SVG <use> creation bounded-tier only.",
         "design_ref": "DESIGN.md section 4 C19",
+    },
+    "C08": {
+        "text": "Bounded only (no contract within reach can decide byte-for-byte determinism of a process): with SOURCE_DATE_EPOCH fixed the real CLI is run twice on generated source sets, varying exactly one of argv order, PYTHONHASHSEED, build-directory location, working directory, ninja parallelism, and the output bytes must be identical. The palette's independence of set iteration order follows from the finite-scope functional postcondition of uniq_sort_cpal_colors (C15).",
+        "note": "process-level runs with a stated bound (5 pairs quick / 60 thorough); ninja scheduling beyond -j1 vs default, file-system ordering and fontTools' SOURCE_DATE_EPOCH handling are exercised but not modelled.",
+        "design_ref": "DESIGN.md B.1, section 4 C08",
+        "category": "other",
+        "technique": "bounded native stand-in (the real CLI run twice under one varied factor, byte comparison); finite-scope symbolic postcondition for the palette order; no deductive claim",
+    },
+    "C12": {
+        "text": "Bounded only: the real maximum_color pipeline (ninja, offline) is run on generated COLRv1 / COLRv0 / OT-SVG fonts; the written font must keep the character map and advances, keep the original colour table and add the complementary one (and CBDT/CBLC with --bitmaps, one bitmap per colour glyph), keep or strip glyph names as requested, and for every colour glyph the COLR and SVG tables must paint the same picture as the input for the glyph reached from the same codepoint (sampling with the COLR and SVG evaluators of contracts/e2e.py).",
+        "note": "4 pipeline runs quick / 60 thorough; glue_together's bookkeeping loops are not under a deductive contract; GSUB/GPOS meaning after the reorder is covered by C11's contracts, not here.",
+        "design_ref": "DESIGN.md B.1, section 4 C12",
+        "category": "other",
+        "technique": "bounded native stand-in (real maximum_color pipeline on generated fonts, picture comparison by sampling); no deductive claim",
     },
     "C10": {
         "text": "Partial. Discharged for all inputs: flag > file > default precedence of _pop_flag (int, str and None-default options), config.validate's rejection conditions. Bounded (native execution of the real functions on generated inputs, stated bounds): config write->load field-for-field, flag precedence end to end, glyph-map CSV rows, file-name -> codepoints, glyph names legal and distinct, feature rules, parts JSON, response files. Known findings K7 (toml strings), K8 (leading blank in a path), F6 (g_ prefix collision) are excluded by their witness classes and re-executed on every run.",
